@@ -402,6 +402,68 @@ theorem ieee_bytes_exact (w : Nat) (o : Order) (u : Nat) (hu : u < 2 ^ (8 * w)) 
 
 example : leBytes 4 (0x3FC00000 : Nat) = [0x00, 0x00, 0xC0, 0x3F] := by decide   -- 1.5f
 
+/-! ## the other integer formats of the struct table (B H I l L q Q) and the spelling of a value -/
+
+/-- **C18.23** unsigned formats: `unpack(pack(v)) = v` on the FULL range `0 ≤ v < 2^(8w)` of every
+width `w` (B H I Q and the two sizes of L are w = 1, 2, 4, 8), both byte orders; outside it
+`pack` refuses. -/
+theorem unpack_pack_uint (w : Nat) (o : Order) (v : Int) :
+    (inURange w v → ∃ bs, packUInt w o v = .ok bs ∧ bs.length = w ∧ unpackUInt w o bs = some v)
+      ∧ (¬ inURange w v → packUInt w o v = .error .range) := by
+  refine ⟨fun h => ⟨orderBytes o (leBytes w v), ?_, ?_, ?_⟩, fun h => ?_⟩
+  · simp [packUInt, packUIntLE, h, Except.map]
+  · rw [orderBytes_length, leBytes_length]
+  · unfold unpackUInt
+    rw [if_pos (by rw [orderBytes_length, leBytes_length]), orderBytes_orderBytes, leValue_leBytes, pow256]
+    exact congrArg some (Int.emod_eq_of_lt h.1 h.2)
+  · simp [packUInt, packUIntLE, h, Except.map]
+
+example : packUInt 2 .big 65535 = .ok [0xFF, 0xFF] ∧ inURange 2 65535 ∧ ¬ inURange 2 65536 ∧ ¬ inURange 2 (-1) := by
+  decide
+
+/-- **C18.24** unsigned formats through both chunk strategies: for in-range integers they succeed,
+agree, and unpack to the sequence followed by the pad values — every width, byte order, machine
+order, size and length (the unsigned twin of C18.14). -/
+theorem chunks_roundtrip_uint (w : Nat) (hw : 0 < w) (native order : Order) (size : Nat) (hs : 0 < size)
+    (pad : Int) (xs : List Int) (hr : ∀ v ∈ pad :: xs, inURange w v) :
+    let s := chunksStruct order (packUIntLE w) size pad xs
+    chunksArray native order (packUIntLE w) 0 size pad xs = s
+      ∧ s.err = none
+      ∧ (∀ c ∈ s.out, c.length = size * w)
+      ∧ unpackSeq (unpackUInt w order) w s.out.flatten
+          = some (xs ++ List.replicate (padLen size xs.length) pad) := by
+  have hok : ∀ v ∈ pad :: xs, packUIntLE w v = .ok (leBytes w v) := by
+    intro v hv; simp [packUIntLE, hr v hv]
+  have hlen : ∀ v ∈ pad :: xs, (leBytes w v).length = w := fun v _ => leBytes_length w v
+  have hz : packUIntLE w 0 = .ok (leBytes w 0) := by
+    have : inURange w 0 := ⟨Int.le_refl 0, Int.pow_pos (by omega)⟩
+    simp [packUIntLE, this]
+  refine ⟨chunks_array_eq_struct native order _ 0 _ hz size hs pad xs,
+    (chunks_concat order _ (leBytes w) w size hs pad xs hok hlen).1,
+    (chunks_concat order _ (leBytes w) w size hs pad xs hok hlen).2.2.1,
+    chunks_roundtrip order _ (leBytes w) (unpackUInt w order) w size hw hs pad xs hok hlen ?_⟩
+  intro v hv
+  obtain ⟨bs, hp, _, hu⟩ := (unpack_pack_uint w order v).1 (hr v hv)
+  have : bs = orderBytes order (leBytes w v) := by
+    simp [packUInt, packUIntLE, hr v hv, Except.map] at hp; exact hp.symm
+  rw [← this]; exact hu
+
+example : (chunksStruct .big (packUIntLE 2) 3 0 [65535, 256, 1, 5]).out
+    = [[0xFF, 0xFF, 1, 0, 0, 1], [0, 5, 0, 0, 0, 0]] := by rfl
+
+/-- **C18.25** the encoder the driver runs, by format and by SPELLING of the value: signed / unsigned
+integer formats take ints and bools (`True` is 1) through `packIntLE` / `packUIntLE` and refuse a
+float or a Fraction — even an integral one; the float formats take every spelling through its
+`float()`.  So C18.14 / C18.24 are about the very function the tie executes. -/
+theorem leElem_spellings (strict : Bool) (w : Nat) (v : Int) (b : Bool) (x : Float) :
+    leElem strict (.s w) (.int v) = packIntLE w v ∧ leElem strict (.u w) (.int v) = packUIntLE w v
+      ∧ leElem strict (.u w) (.bool b) = packUIntLE w (if b then 1 else 0)
+      ∧ leElem strict .h (.bool b) = packIntLE 2 (if b then 1 else 0)
+      ∧ leElem strict (.u w) (.flt x) = .error .notInt ∧ leElem strict (.s w) (.frac x) = .error .notInt
+      ∧ leElem strict .d (.frac x) = leElem strict .d (.flt x)
+      ∧ leElem strict .f (.frac x) = leElem strict .f (.flt x) :=
+  ⟨rfl, rfl, rfl, rfl, rfl, rfl, rfl, rfl⟩
+
 end ALV.Props.C18
 
 #write_audit "C18"
